@@ -24,6 +24,7 @@ META = {
     'stubs': ['Decimal(x, precision) rounding contract', 'Decimal.magnitude / math.log10 (symbolic rates)'],
     'assumptions': [],
 }
+META['bounds'].append('every third money/rate job also under an active and a registered money converter; price sequences with the target unit declared after the first (rejected) application')
 
 
 def setup(mode):
